@@ -278,6 +278,46 @@ def main():
             from fastparquet import parquet_thrift
             packed = bytes(writer.encode_plain(data.notnull(), parquet_thrift.SchemaElement(type=parquet_thrift.Type.BOOLEAN)))
             return ["ok", bytes(block).hex(), len(out), packed.hex()]
+        if fn == "make_definitions_big":
+            # pages of millions of rows (the 3 -> 4 byte boundary of the run header at 2^20 groups): too big to ship through the
+            # extracted spec decoder as lists - the block is taken apart here with independent Python (varint, length prefix) and
+            # numpy's unpackbits (LSB first = the format's bit order)
+            import pandas as pd
+            from fastparquet import writer
+            n = c["n"]
+            vals = np.ones(n, dtype="float64")
+            mask = np.ones(n, dtype=bool)
+            for i in c["null_at"]:
+                vals[i] = np.nan
+                mask[i] = False
+            block, out = writer.make_definitions(pd.Series(vals), False, c["version"])
+            b = bytes(block)
+            probs = []
+            pos = 0
+            if c["version"] == 1:
+                if int.from_bytes(b[:4], "little") != len(b) - 4:
+                    probs.append("length prefix %d, block body %d bytes" % (int.from_bytes(b[:4], "little"), len(b) - 4))
+                pos = 4
+            h = shift = 0
+            while True:
+                x = b[pos]
+                pos += 1
+                h |= (x & 127) << shift
+                shift += 7
+                if not x & 128:
+                    break
+            if not h & 1:
+                probs.append("run header %d is not a bit-packed run" % h)
+            groups = h >> 1
+            body = b[pos:]
+            if len(body) != groups:
+                probs.append("run header announces %d groups (bytes at width 1), %d bytes follow" % (groups, len(body)))
+            if groups * 8 < n:
+                probs.append("%d groups hold fewer than %d levels" % (groups, n))
+            got = np.unpackbits(np.frombuffer(body, dtype=np.uint8), bitorder="little")[:n].astype(bool)
+            if len(got) != n or not (got == mask).all():
+                probs.append("levels decode differently from the not-null mask (%d of %d present)" % (len(got), n))
+            return ["ok", probs, len(b), b[:12].hex()]
         if fn == "page_v1_dict":
             # the Python CALLER of the native decoders: core.read_data_page on a foreign (not self-made) v1 data page
             # holding dictionary indices of width w (and, for an OPTIONAL column, width-1 definition levels)
